@@ -178,6 +178,31 @@ def judge(ctx, c, rng):
                     same = (a.shape == b.shape) and bool(np.allclose(a, b, rtol=1e-12, atol=1e-12, equal_nan=True))
                     ctx.check("C04.batch==single", same, lambda: {"gen": c, "band": [fmin, fmax], "point": list(ix), "name": name},
                               {"single": a, "batch": b, "name": name}, key=f"C04:batch:{name}")
+    # derived peak quantities (default band)
+    ok_f, fpk = guarded(ctx, "C04.no-exception", lambda: s.peak_frequency(), lambda: {"gen": c}, key="C04:peak_frequency:exception")
+    ok_w, wpk = guarded(ctx, "C04.no-exception", lambda: s.peak_angular_frequency(), lambda: {"gen": c},
+                        key="C04:peak_angular_frequency:exception")
+    if ok_f and ok_w:
+        ctx.close("C04.peak_angular_frequency==2pi*fp", np.asarray(wpk.values, float), 2 * np.pi * np.asarray(fpk.values, float),
+                  atol=0, rtol=1e-14, case=lambda: {"gen": c}, key="C04:peak_angular_frequency")
+    ok_k, kpk = guarded(ctx, "C04.no-exception", lambda: s.peak_wavenumber, lambda: {"gen": c}, key="C04:peak_wavenumber:exception")
+    ok_c, cpk = guarded(ctx, "C04.no-exception", lambda: s.peak_wave_speed(), lambda: {"gen": c}, key="C04:peak_wave_speed:exception")
+    if ok_f and ok_k and ok_c:
+        fv, kv = np.asarray(fpk.values, float), np.asarray(kpk.values, float)
+        okp = (fv > 0) & np.isfinite(kv) & (kv > 0)
+        with np.errstate(divide="ignore", invalid="ignore"):
+            wantc = 2 * np.pi * fv / kv
+        gotc = np.asarray(cpk.values, float)
+        if gotc.shape == wantc.shape:
+            ctx.close("C04.peak_wave_speed==2pi*fp/kp", gotc[okp], wantc[okp], atol=0, rtol=1e-12, case=lambda: {"gen": c},
+                      key="C04:peak_wave_speed")
+            U = 11.0
+            ok_a, age = guarded(ctx, "C04.no-exception", lambda: s.wave_age(U), lambda: {"gen": c}, key="C04:wave_age:exception")
+            if ok_a:
+                ctx.close("C04.wave_age==cp/U", np.asarray(age.values, float)[okp], wantc[okp] / U, atol=0, rtol=1e-12,
+                          case=lambda: {"gen": c}, key="C04:wave_age")
+        else:
+            ctx.check("C04.peak_wave_speed==2pi*fp/kp", False, lambda: {"gen": c}, {"shape": gotc.shape}, key="C04:peak_wave_speed")
     ok, k = guarded(ctx, "C04.no-exception", lambda: s.peak_wavenumber, lambda: {"gen": c},
                     key="C04:peak_wavenumber:exception")
     if c["layout"] == "scalar":
